@@ -743,7 +743,7 @@ BY = {c.id: c for c in PARSE_CLASSES}
 BY["complete_protocol_positional_from_dash_slot"].codes = ("carapace_registered:positional_slot",)
 BY["subcommand_after_parent_flags"].codes = ("subcommand_",)
 BY["nargs_any_flag_before_pending_flag"].codes = ("probe_slot_not_served", "acceptable_not_offered")
-BY["shorthand_series_after_dash"].codes = ("wrong_slot:dash",)
+BY["shorthand_series_after_dash"].codes = ("wrong_slot:dash", "wrong_slot:flag")
 
 
 # ---- entry engine (C18)
